@@ -48,13 +48,26 @@ class TermsWorld:
 
 def run_case(w, case):
     """case: dict(op=..., ...) with item lists; returns the event."""
-    Term = w.Term
+    RealTerm = w.Term
+    warm = case.get('warm', 0)
+
+    def Term(items):
+        # warm > 0: the operand has been normalized / hashed / compared before the operation
+        # (the object caches its normal form and hash) - results must not depend on that
+        t = RealTerm(items)
+        if warm:
+            t.normalized()
+            hash(t)
+            if warm > 1:
+                t == RealTerm(items)
+                t.is_normalized
+        return t
     ev = dict(case)
     op = case['op']
     try:
         if op == 'make':
             t = Term(w.mk(case['t']))
-            ev['res'] = w.proj(t)
+            _with_norm(w, ev, t)
         elif op == 'norm':
             t = Term(w.mk(case['t']))
             n = t.normalized()
@@ -72,13 +85,13 @@ def run_case(w, case):
                                and not isinstance(num, float))
         elif op in ('mul', 'div'):
             a, b = Term(w.mk(case['a'])), Term(w.mk(case['b']))
-            ev['res'] = w.proj(a * b if op == 'mul' else a / b)
+            _with_norm(w, ev, a * b if op == 'mul' else a / b)
         elif op == 'pow':
             a = Term(w.mk(case['a']))
             if case['n'] == -1 and case.get('recip'):
-                ev['res'] = w.proj(a.reciprocal())
+                _with_norm(w, ev, a.reciprocal())
             else:
-                ev['res'] = w.proj(a ** case['n'])
+                _with_norm(w, ev, a ** case['n'])
         elif op in ('mulnum', 'rdiv', 'divnum'):
             a = Term(w.mk(case['a']))
             k = mk_amount(case['k'], case['kty'])
@@ -88,7 +101,7 @@ def run_case(w, case):
                 r = k / a
             else:
                 r = a / k
-            ev['res'] = w.proj(r)
+            _with_norm(w, ev, r)
         elif op == 'eq':
             a, b = Term(w.mk(case['a'])), Term(w.mk(case['b']))
             ev['eq'] = bool(a == b)
@@ -96,3 +109,11 @@ def run_case(w, case):
     except Exception as exc:
         ev['exc'] = '%s: %s' % (type(exc).__name__, str(exc)[:100])
     return ev
+
+
+def _with_norm(w, ev, term):
+    """Record the result and, separately, what normalising the result object gives."""
+    ev['res'] = w.proj(term)
+    n = term.normalized()
+    ev['resn'] = w.proj(n)
+    ev['resn_flag'] = bool(n.is_normalized and (term.is_normalized == (tuple(term.items) == tuple(n.items))))
